@@ -62,19 +62,43 @@ def gPick : List (Q × Nat × Nat × Nat) → Option (Q × Nat × Nat × Nat)
   | [] => none
   | c :: cs => some (cs.foldl (fun best x => if x.1.lt best.1 then x else best) c)
 
-/-- Per-clock pin assignment loop; `hasP` = "CLKOUTP" already in config. -/
-def gPins (outF : Q) (fm : Out) : List Out → Bool → List Nat → Res (List Nat)
-  | [], _, acc => .ok acc.reverse
-  | o :: os, hasP, acc =>
-    let th := (fm.freq.div o.freq).floor
+/-- `th_div = int(freq_max // freq)`. -/
+@[inline] def gTh (fm o : Out) : Nat := (fm.freq.div o.freq).floor
+
+/-- The code's final per-clock test `diff_f > r_freq*margin` (relative to the OBTAINED frequency) fails. -/
+@[inline] def gMiss (rf : Q) (o : Out) : Bool := (rf.mul o.margin).lt (rf.absDiff o.freq)
+
+def Res.consPin (pin : Nat) : Res (List Nat) → Res (List Nat)
+  | .ok l => .ok (pin :: l)
+  | .rejected => .rejected
+  | .assertion => .assertion
+  | .crash => .crash
+
+/-- Per-clock pin assignment loop; `hasP` = "CLKOUTP" already in config.
+    0 = CLKOUT, 1 = CLKOUTP (th_div = 1), 2 = CLKOUTD3 (th_div = 3), 3 = CLKOUTD (any other th_div). -/
+def gPins (outF : Q) (fm : Out) : List Out → Bool → Res (List Nat)
+  | [], _ => .ok []
+  | o :: os, hasP =>
+    let th := gTh fm o
     if th = 0 then .crash else
-    let rf := outF.divNat th
-    if ((rf.mul o.margin)).lt (rf.absDiff o.freq) then .rejected else
+    if gMiss (outF.divNat th) o then .rejected else
     if th = 1 then
-      if o.phase.num = 0 then gPins outF fm os hasP (0 :: acc)
-      else if hasP then .rejected else gPins outF fm os true (1 :: acc)
-    else if th = 3 then gPins outF fm os hasP (2 :: acc)
-    else gPins outF fm os hasP (3 :: acc)
+      if o.phase.num = 0 then (gPins outF fm os hasP).consPin 0
+      else if hasP then .rejected else (gPins outF fm os true).consPin 1
+    else if th = 3 then (gPins outF fm os hasP).consPin 2
+    else (gPins outF fm os hasP).consPin 3
+
+/-- Structural limits of the primitive on the set of dividers (`freqs_div`, `clkoutd_div`): `none` = ValueError,
+    `some sdiv` = the CLKOUTD divider (SDIV_SEL). -/
+def gSdiv (fm : Out) (outs : List Out) : Option Nat :=
+  let fdivs := (outs.map (gTh fm)).filter (· ≠ 1)
+  if fdivs.length > 2 then none else
+  let dd := fdivs.filter (· ≠ 3)
+  if (fdivs.length = 2 ∧ (fdivs.filter (· = 3)).length = 2) ∨ dd.length = 2 ∨
+     (dd.length = 1 ∧ (dd.headD 0) % 2 ≠ 0) then none else
+  some (if dd.length = 1 then dd.headD 0 else 2)
+
+@[inline] def gOutF (r : GReq) (idiv fdiv : Nat) : Q := (r.clkin.mulNat fdiv).divNat idiv
 
 def gSearch (d : GDev) (r : GReq) : Res GCfg :=
   match gFreqMax r.outs with
@@ -83,7 +107,7 @@ def gSearch (d : GDev) (r : GReq) : Res GCfg :=
     match gPick (gCandidates d r fm) with
     | none => .rejected
     | some (_, idiv, fdiv, odiv) =>
-      let outF := (r.clkin.mulNat fdiv).divNat idiv
+      let outF := gOutF r idiv fdiv
       -- distinct non-zero phases
       let phases := (r.outs.filter (fun o => o.phase.num ≠ 0)).foldl
         (fun (acc : List SQ) o => if acc.any (fun p => p.beq o.phase) then acc else acc ++ [o.phase]) []
@@ -91,17 +115,17 @@ def gSearch (d : GDev) (r : GReq) : Res GCfg :=
       let psda : Int := match phases with
         | [p] => (SQ.floor ⟨p.num * 2, p.den * 45⟩)          -- int(p // 22.5)
         | _ => 0
-      let fdivs := (r.outs.map fun o => (fm.freq.div o.freq).floor).filter (· ≠ 1)
-      if fdivs.length > 2 then .rejected else
-      let dd := fdivs.filter (· ≠ 3)
-      if (fdivs.length = 2 ∧ (fdivs.filter (· = 3)).length = 2) ∨ dd.length = 2 ∨
-         (dd.length = 1 ∧ (dd.headD 0) % 2 ≠ 0) then .rejected else
-      let sdiv : Nat := if dd.length = 1 then dd.headD 0 else 2
-      match gPins outF fm r.outs false [] with
+      match gSdiv fm r.outs with
+      | none => .rejected
+      | some sdiv =>
+      match gPins outF fm r.outs false with
       | .ok pins => .ok ⟨idiv, fdiv, odiv, sdiv, psda, pins⟩
       | .rejected => .rejected
       | .assertion => .assertion
       | .crash => .crash
+
+/-- rPLL/PLLVR parameters: (IDIV_SEL, FBDIV_SEL, ODIV_SEL, DYN_SDIV_SEL) = (idiv-1, fdiv-1, odiv, sdiv). -/
+def gParams (c : GCfg) : Nat × Nat × Nat × Nat := (c.idiv - 1, c.fdiv - 1, c.odiv, c.sdiv)
 
 /-- `GW1NOSC`: the LAST divider in `range(lo, hi)` with `f*(1-m) <= osc/div <= f*(1+m)`. -/
 def gOscDiv (lo hi : Nat) (osc : Q) (o : Out) : Option Nat :=
